@@ -43,9 +43,17 @@ Theorem C20_modes {B} (data other : list (list Z)) (ref : B -> list Z) b i :
   val_at SubLabel data other ref b i = vsub (nth i data []) (nth i other []).
 Proof. repeat split. Qed.
 
+(* 'all' and 'section' see the same locations with the same multiplicities: the rows of calc_per='all' are a rearrangement
+   (into fibre order) of the per-bath rows concatenated in dictionary order; there are exactly as many result rows and
+   reference rows as selected locations *)
+Theorem C20_all_rearranges_the_sections {B} (m : mode) (data other : list (list Z)) (ref : B -> list Z) xs (secs : list (B * list stretch)) :
+  Permutation (ix_all xs secs) (flat_map (sec_ix xs) secs) /\
+  length (u_all m data other ref xs secs) = length (ix_all xs secs) /\ length (ref_all xs secs) = length (ix_all xs secs).
+Proof. split; [exact (ix_all_perm_sections xs secs)|]. split; [exact (u_all_length m data other ref xs secs)|exact (ref_all_length xs secs)]. Qed.
+
 Example C20_ex :
   u_all TempErr [[10;11];[20;21];[30;31];[40;41]]%Z [] (fun b : nat => if Nat.eqb b 0 then [1;1] else [2;2])%Z
         [0;1;2;3]%Q [(1%nat, [(2,3)%Q]); (0%nat, [(0,0)%Q])] = [[9;10];[28;29];[38;39]]%Z.
 Proof. vm_compute. reflexivity. Qed.
 
-Print Assumptions C20_per_stretch. Print Assumptions C20_per_section. Print Assumptions C20_all. Print Assumptions C20_modes.
+Print Assumptions C20_per_stretch. Print Assumptions C20_per_section. Print Assumptions C20_all. Print Assumptions C20_modes. Print Assumptions C20_all_rearranges_the_sections.
